@@ -168,22 +168,73 @@ def entries_for(spec, in_dir):
 # ---------------------------------------------------------------------------------------------------------------
 # template directories
 # ---------------------------------------------------------------------------------------------------------------
+TYPE_TEMPLATES = ("StructureType.j2", "UnionType.j2", "DelimitedType.j2", "ServiceType.j2", "Namespace.j2")
+# pulled into every type template of a copied directory: same file name at three depths, a non-.j2 file, an include
+# chain, an import and an extends chain below sub-folders
+COPY_SNIPPET = ('{% include "helper.j2" %}{% include "extra/helper.j2" %}{% include "extra/more/helper.j2" %}'
+                '{% include "notes.txt" %}{% import "macros/util.j2" as c08u %}{{ c08u.tag("c08") }}'
+                '{% include "layouts/child.j2" %}')
+
+
+def _write_tree(dest, files):
+    for rel, text in files.items():
+        f = pathlib.Path(dest, rel)
+        f.parent.mkdir(parents=True, exist_ok=True)
+        f.write_text(text)
+
+
 def make_tpl_dir(kind, lang, pkg_lang_dir, dest):
-    """kind: copy | any | nons | nested"""
+    """kind: copy | tree | any | nons | nested"""
     dest = pathlib.Path(dest)
     src = pathlib.Path(pkg_lang_dir, lang, "templates")
     if kind in ("copy", "nons"):
         shutil.copytree(src, dest, ignore=shutil.ignore_patterns("__pycache__", "*.py", "*.pyc"))
-        (dest / "extra").mkdir()
-        (dest / "extra" / "helper.j2").write_text("{# helper #}helper-text\n")
-        (dest / "notes.txt").write_text("notes-text\n")
-        for name in ("StructureType.j2",):
-            with open(dest / name, "a") as f:
-                f.write('\n{% include "extra/helper.j2" %}\n{% include "notes.txt" %}\n')
+        _write_tree(dest, {
+            "helper.j2": "top-helper\n",
+            "extra/helper.j2": "{# helper #}extra-helper {% include \"extra/more/chain.j2\" %}\n",
+            "extra/more/helper.j2": "deep-helper\n",
+            "extra/more/chain.j2": "chain-end\n",
+            "extra/unused/helper.j2": "same name, never included\n",
+            "notes.txt": "notes-text\n",
+            "macros/util.j2": "{% macro tag(n) %}<tag {{ n }}>{% endmacro %}\n",
+            "macros/helper.j2": "{% macro unused() %}same name again, never used{% endmacro %}\n",
+            "layouts/base.j2": "layout[{% block c08top %}{% endblock %}|{% block c08body %}{% endblock %}]\n",
+            "layouts/child.j2": "{% extends \"layouts/base.j2\" %}{% block c08top %}child-top{% endblock %}"
+                                "{% block c08body %}{% include \"layouts/parts/body.j2\" %}{% endblock %}\n",
+            "layouts/parts/body.j2": "layout-body\n",
+        })
+        for name in TYPE_TEMPLATES:
+            f = dest / name
+            if not f.exists():
+                continue
+            text = f.read_text()
+            # inside the last block when the template extends a base (text outside blocks is not rendered), else at the end
+            i = max(text.rfind("{% endblock"), text.rfind("{%- endblock"))
+            text = text[:i] + COPY_SNIPPET + text[i:] if i >= 0 else text + "\n" + COPY_SNIPPET + "\n"
+            f.write_text(text)
         if kind == "nons":
             for n in ("Namespace.j2", "Any.j2"):
                 if (dest / n).exists():
                     (dest / n).unlink()
+    elif kind == "tree":
+        # a self-contained directory: one Any.j2 on top of includes / imports / extends spread over sub-folders, with
+        # the same file names at several depths (used and unused ones)
+        _write_tree(dest, {
+            "Any.j2": "{% extends \"layouts/child.j2\" %}{% block body %}{% include \"header.j2\" %}"
+                      "{% include \"parts/header.j2\" %}{% import \"macros/util.j2\" as u %}{{ u.tag(T.full_name) }}"
+                      "{% from \"macros/more/util.j2\" import wrap %}{{ wrap(\"x\") }}{% include \"data/values.txt\" %}{% endblock %}\n",
+            "layouts/child.j2": "{% extends \"layouts/base.j2\" %}{% block top %}child-top{% endblock %}\n",
+            "layouts/base.j2": "base[{% block top %}{% endblock %}|{% block body %}{% endblock %}]{% include \"parts/deep/header.j2\" %}\n",
+            "header.j2": "top-header\n",
+            "parts/header.j2": "parts-header {% include \"parts/deep/footer.j2\" %}\n",
+            "parts/deep/header.j2": "deep-header\n",
+            "parts/deep/footer.j2": "deep-footer\n",
+            "footer.j2": "same name as parts/deep/footer.j2, never included\n",
+            "macros/util.j2": "{% macro tag(n) %}<{{ n }}>{% endmacro %}\n",
+            "macros/more/util.j2": "{% macro wrap(n) %}[{{ n }}]{% endmacro %}\n",
+            "macros/header.j2": "{% macro unused() %}{% endmacro %}\n",
+            "data/values.txt": "values-text\n",
+        })
     elif kind == "any":
         dest.mkdir(parents=True)
         (dest / "Any.j2").write_text("any: {{ T.full_name }}\n")
@@ -218,7 +269,7 @@ def list_dir_files(d):
 # configurations
 # ---------------------------------------------------------------------------------------------------------------
 FACTORS_QUICK = collections.OrderedDict([
-    ("lang", LANGS), ("gs", GS), ("omit", [0, 1]), ("gnt", [0, 1]), ("tpl", ["none", "copy", "any"]),
+    ("lang", LANGS), ("gs", GS), ("omit", [0, 1]), ("gnt", [0, 1]), ("tpl", ["none", "copy", "tree"]),
     ("stpl", ["none", "shadow"]), ("ext", [None, ".xx", "yy"]), ("stem", [None, "nsx"]),
     ("ns", ["plain", "lookup"]), ("out", ["rel", "abs"]),
 ])
@@ -260,7 +311,7 @@ def wide_cfgs(rng, rounds):
     wide = collections.OrderedDict(FACTORS_QUICK)
     wide["ns"] = ["plain", "lookup", "solo", "random"]
     wide["out"] = ["rel", "abs", "dotted"]
-    wide["tpl"] = ["none", "copy", "any", "nons", "nested"]
+    wide["tpl"] = ["none", "copy", "tree", "any", "nons", "nested"]
     wide["ext"] = [None, ".xx", "yy", "", ".", ".a.b", "a/b"]
     wide["stem"] = [None, "nsx", "a.b", ".hid", "x."]
     out = []
@@ -873,12 +924,13 @@ def run(ctx: common.Ctx):
     def mc(lang, ns, tpl="none", stpl="none", gs="as-needed", gnt=0):
         return {"lang": lang, "gs": gs, "omit": 0, "gnt": gnt, "tpl": tpl, "stpl": stpl, "ext": None, "stem": None, "ns": ns, "out": "rel"}
     if ctx.quick:
-        mcfgs = [mc("c", "lookup"), mc("html", "plain"), mc("py", "lookup", tpl="copy", stpl="shadow")]
+        mcfgs = [mc("c", "lookup"), mc("html", "plain"), mc("py", "lookup", tpl="copy", stpl="shadow"), mc("c", "plain", tpl="tree", gnt=1)]
     else:
         mcfgs = []
         for l in LANGS:
             mcfgs += [mc(l, "plain"), mc(l, "lookup"), mc(l, "lookup", "copy", "shadow")]
             mcfgs.append(mc(l, "random", "copy", "shadow") if l in ("c", "py") else mc(l, "random"))
+            mcfgs.append(mc(l, "plain", tpl="tree", gnt=1))
     ctx.extra["domain"]["mutation_configurations"] = len(mcfgs)
     MutationSearch(ctx, specs, drv).run(mcfgs)
     ctx.exhaustive = False
